@@ -289,6 +289,8 @@ func (r *Runner) printResults(frs []*FuncResult, all bool) int {
 				} else if strings.Contains(o.Name, ".body") || strings.Contains(o.Name, "canary.entry") {
 					fmt.Printf("  VACUOUS %s (%s): unreachable\n", o.Name, o.Pos)
 					bad++
+				} else if r.verbose {
+					fmt.Printf("  note: %s (%s) is unreachable under the contract\n", o.Name, o.Pos)
 				}
 				continue
 			}
